@@ -157,6 +157,7 @@ def run_tlc(spec, cfg=None, workers=1, env=None, timeout=600, extra=(), dfs=Fals
     md = tempfile.mkdtemp(prefix="md-", dir=d)
     # explicit heap limits: the JVM default (25% of RAM per process) lets 16 parallel trace-validation shards exhaust memory
     java = ["java", "-XX:+UseParallelGC", "-Xmx" + (heap or ("2560m" if workers == 1 else "12g"))]
+    java += ["-Djava.io.tmpdir=" + md]   # TLC's own temporary files go with the scratch directory
     java += ["-Xss512m", "-cp", "/opt/veriftools/tla/tla2tools.jar:/opt/veriftools/tla/CommunityModules-deps.jar", "tlc2.TLC"]
     cmd = java + ["-workers", str(workers), "-metadir", md, "-config", spec + ".cfg"] + list(extra) + [spec + ".tla"]
     t0 = time.time()
